@@ -5,6 +5,7 @@ From Coq Require Import String List NArith.
 From RJ Require Import Base.Outcome Model.PanicInv Model.PanicBaseline Gen.PanicSites.
 From RJ Require Import Model.Span Proofs.Span_proofs Gen.SpanConsts.
 From RJ Require Model.Lexer Model.Parser Model.Analyze Model.Front Proofs.Utf8_proofs Proofs.Front_proofs.
+From RJ Require Model.RefValue Model.RefEval Model.Pipeline Proofs.RefNoPanic_main Proofs.Pipeline_proofs.
 Local Open Scope N_scope.
 
 (* T: no function of the current source has more explicit panic sites (unwrap, expect, panic!,
@@ -54,9 +55,63 @@ Example C01_front_nonvacuous :
   Front.load_model (Lexer.bytes_of_string "local x = 1; y") = Err (Front.FAnalyze (Analyze.UnknownVariable (13, 14) [121])).
 Proof. exact Front_proofs.front_examples. Qed.
 
+(* ---- the whole pipeline from source bytes (Model/Pipeline.v: Front, then the C02 reference interpreter
+   RefEval.run on the tree the model parser built) ---- *)
+
+(* eval_model reports a lex / parse / static error exactly when load_model does, and the same error;
+   when load_model accepts it is RefEval.run on the parsed tree *)
+Theorem C01_pipeline_front_verdict : forall bytes c,
+  (forall x, Front.load_model bytes = Err x <-> snd (Pipeline.eval_model bytes c) = Err (Pipeline.PFront x)) /\
+  (forall i, Front.load_model bytes = Ok i ->
+     exists toks e, Front.front_parse bytes = Ok (toks, e) /\
+       Pipeline.eval_model bytes c =
+         (fst (RefEval.run (Pipeline.p_fuel c) (Pipeline.p_cfg c) e),
+          Front.inj_err Pipeline.PEval (snd (RefEval.run (Pipeline.p_fuel c) (Pipeline.p_cfg c) e)))).
+Proof. exact Pipeline_proofs.pipeline_front_verdict. Qed.
+
+(* the reference interpreter never answers Panic: for EVERY syntax tree (statically correct or not), fuel,
+   stack limit and setting of the two deviation switches, none of its panic sites is reachable —
+   RefEval:answer:value / bool / cmp / json (the knot answers with the kind its task asks for),
+   RefEval:do_field:layer (find_field's index is inside the layer list), RefEval:call_builtin:arity (a builtin
+   is called with as many thunks as it has parameters), and eval/mod.rs:CompareValue:partial_cmp().unwrap()
+   (invariant: no number stored in any value, thunk, environment or object layer is a NaN) *)
+Theorem C01_refeval_no_panic : forall e fuel c site, snd (RefEval.run fuel c e) <> Panic site.
+Proof. exact RefNoPanic_main.run_no_panic. Qed.
+
+(* from source bytes to the manifested value, no panic site of lexer, parser, analyzer or interpreter is reachable *)
+Theorem C01_pipeline_no_panic : forall bytes c site, Utf8_proofs.bytes_ok bytes ->
+  snd (Pipeline.eval_model bytes c) <> Panic site.
+Proof. intros bytes c site B. exact (Pipeline_proofs.pipeline_no_panic bytes c site B). Qed.
+
+(* only the interpreter's own fuel (a parameter) can run out, never the front end's *)
+Theorem C01_pipeline_fuel : forall bytes c, Utf8_proofs.bytes_ok bytes ->
+  snd (Pipeline.eval_model bytes c) = OutOfFuel ->
+  exists toks e, Front.front_parse bytes = Ok (toks, e) /\
+                 snd (RefEval.run (Pipeline.p_fuel c) (Pipeline.p_cfg c) e) = OutOfFuel.
+Proof. exact Pipeline_proofs.pipeline_fuel. Qed.
+
+(* non-vacuity: a value, a user error, a static error, a syntax error, a stack overflow, fuel exhaustion *)
+Example C01_pipeline_nonvacuous :
+  (exists j, snd (Pipeline.eval_model (Lexer.bytes_of_string "local x = 2; [x + 1, std.length('ab'), x < 3]") Pipeline_proofs.cfg0) = Ok j /\
+             match j with RefValue.JArr [RefValue.JNum _; RefValue.JNum _; RefValue.JBool true] => True | _ => False end) /\
+  snd (Pipeline.eval_model (Lexer.bytes_of_string "error 'boom'") Pipeline_proofs.cfg0)
+    = Err (Pipeline.PEval (RefValue.EExplicit [98; 111; 111; 109])) /\
+  (exists x, snd (Pipeline.eval_model (Lexer.bytes_of_string "local x = 1; y") Pipeline_proofs.cfg0) = Err (Pipeline.PFront (Front.FAnalyze x))) /\
+  (exists x, snd (Pipeline.eval_model (Lexer.bytes_of_string "1 +") Pipeline_proofs.cfg0) = Err (Pipeline.PFront (Front.FParse x))) /\
+  snd (Pipeline.eval_model (Lexer.bytes_of_string "local f(x) = f(x); f(1)")
+         {| Pipeline.p_fuel := 400; Pipeline.p_cfg := {| RefEval.c_limit := 10; RefEval.c_bfs := false; RefEval.c_ts_tail := false |} |})
+    = Err (Pipeline.PEval RefValue.EStackOverflow) /\
+  snd (Pipeline.eval_model (Lexer.bytes_of_string "local f(x) = f(x); f(1)") Pipeline_proofs.cfg0) = OutOfFuel.
+Proof. exact Pipeline_proofs.pipeline_examples. Qed.
+
 Print Assumptions C01_panic_sites_covered.
 Print Assumptions C01_span_no_panic.
 Print Assumptions C01_crop_no_panic.
 Print Assumptions C01_front_no_panic.
 Print Assumptions C01_front_error_located.
 Print Assumptions C01_front_nonvacuous.
+Print Assumptions C01_pipeline_front_verdict.
+Print Assumptions C01_refeval_no_panic.
+Print Assumptions C01_pipeline_no_panic.
+Print Assumptions C01_pipeline_fuel.
+Print Assumptions C01_pipeline_nonvacuous.
